@@ -288,7 +288,7 @@ func scanBtpSet(c *core.Ctx) []ob {
 }
 
 func init() {
-	core.Register(&core.Rule{Name: "BTPSET", Props: []string{"C19", "C18"},
+	core.Register(&core.Rule{Name: "BTPSET", Props: []string{"C19"},
 		Doc: "every package-level default bootstrapping set (residual ckks literal + bootstrapping literal), folded statically with the package's Default* constants: bootstrapping ring degree equals the residual one and the identifier's, and the instantiated total log2(QP) (residual + SlotsToCoeffs with the scale-merging rule + Depth() x EvalModLogScale + CoeffsToSlots + P) is within the identifier's claim",
 		Run: func(c *core.Ctx) []ob {
 			out := scanBtpSet(c)
